@@ -5,6 +5,8 @@ import MysticVerif.Model.Combinators
 import MysticVerif.Model.Solver
 import MysticVerif.Model.NelderMead
 import MysticVerif.Model.PowellS
+import MysticVerif.Model.ClosedLoop
+import MysticVerif.Drv.C10
 
 namespace MysticVerif.SolverDrv
 open MysticVerif MysticVerif.Dsl MysticVerif.Solver
@@ -317,11 +319,57 @@ def handlePw (args : List Val) : String := Id.run do
   let reqs := "(" ++ " ".intercalate (s.reqs.map fun r => "(" ++ pFs r.1 ++ " " ++ pFs r.2 ++ ")") ++ ")"
   return s!"ok steps=({" ".intercalate outs.toList}) reqs={reqs} direc={pFss s.direc} logsum={(logSum s.log).toNat} steplog={pPairs s.stepLog} hist={pFs s.hist}"
 
+/-! ### the closed loop: `solve (cost ..) (pen ..) (cons ..) (box ..) (kind de|de2|nm) (term <C10 expression>)
+`(scale i e) (limits g e) (fuel n)` + `(pop ..) (trials ..)` for DE, `(x0 ..) (radius f) (inplace b)` for Nelder-Mead.
+Everything - how many iterations run, the stop message, the counters, the final state - is decided by the model. -/
+
+open MysticVerif.Closed in
+def handleSolve (args : List Val) : String := Id.run do
+  let some su := parseSetup args | return "bad-op"
+  let some (.sym kind) := kw? args "kind" | return "bad-op"
+  let some e := (kw? args "term").bind DrvC10.parseExpr | return "bad-op"
+  let some (.list [.int si, .int se]) := kw? args "scale" | return "bad-op"
+  let some (.list [lg, le]) := kw? args "limits" | return "bad-op"
+  let some g := optNat lg | return "bad-op"
+  let some ev := optNat le | return "bad-op"
+  let some fuel := (kw? args "fuel").bind Val.asNat? | return "bad-op"
+  let cond := e.build
+  let o := su.obj
+  let c0 : Ctl := ({ scaleIter := si.toNat, scaleEval := se.toNat } : Ctl).setLimits g ev false
+  let showOut := fun (c : Ctl) (msg : Option Msg) (iters steps : Nat) (best : V) (bestE : Float) (nlog nstep : Nat) =>
+    s!"ok iters={iters} steps={steps} msg={showMsg msg} gens={c.gens} evals={c.evals} nstep={c.nstep} maxiter={showLim c.maxiter} maxfun={showLim c.maxfun} live={pB c.live} best={pFs best} bestE={pF bestE} nlog={nlog} nsteplog={nstep}"
+  if kind == "nm" then
+    let some x0 := (kw? args "x0").bind Val.asFloats? | return "bad-op"
+    let some radius := (kw? args "radius").bind Val.asFloat? | return "bad-op"
+    let mut_ := ((kw? args "inplace").bind Val.asBool?).getD false
+    let st : V → V := if mut_ then o.K else id
+    let coef : Coef Float := { one := 1.0, rho := 1.0, chi := 2.0, psi := 0.5, sigma := 0.5, n := Float.ofNat x0.length }
+    let clip0 : V → V := match su.box with | some b => b.clip0 | none => id
+    let a := nmAlg o coef st clip0 (mkVal su.box radius) cond x0
+    -- equal vertex energies: `numpy.argsort` leaves the order of ties unspecified - flag the run (the harness skips it)
+    let hasTie := fun (s : NM Float Float) =>
+      let es := s.simplex.map Prod.snd
+      es.zipIdx.any fun (e, i) => (es.drop (i + 1)).any (· == e)
+    let a' : Alg (NM Float Float × Bool) :=
+      { step := fun p k => let s' := a.step p.1 k; (s', p.2 || (decide (k ≥ 1) && hasTie s')),
+        nlog := fun p => a.nlog p.1, term := fun p c => a.term p.1 c }
+    let r := solve a' fuel c0 ((default : NM Float Float), false) 0 0
+    let hd := r.st.1.simplex.headD ([], inf)
+    return showOut r.ctl r.msg r.iters r.steps hd.1 hd.2 r.st.1.log.length r.st.1.stepLog.length ++ s!" ties={pB r.st.2}"
+  else
+    let some pop := (kw? args "pop").bind Val.asList? |>.bind (·.mapM Val.asFloats?) | return "bad-op"
+    let some trialss := (kw? args "trials").bind Val.asList? |>.bind (·.mapM fun g => g.asList?.bind (·.mapM Val.asFloats?)) | return "bad-op"
+    let pop := match su.box with | some b => pop.map b.clip0 | none => pop
+    let a := deAlg (kind == "de2") o cond pop trialss
+    let r := solve a fuel c0 (DE.init o pop (pop.headD [])) 0 0
+    return showOut r.ctl r.msg r.iters r.steps r.st.best r.st.bestE r.st.log.length r.st.stepLog.length
+
 def handle : Handler
   | .sym "de" :: args => handleDE args
   | .sym "nm" :: args => handleNM args
   | .sym "ctl" :: args => handleCtl args
   | .sym "pw" :: args => handlePw args
+  | .sym "solve" :: args => handleSolve args
   | .sym "warn" :: args => Id.run do         -- the one-liners' warnflag from the final counters and resolved limits
     let some (.int e) := kw? args "evals" | return "bad-op"
     let some (.int g) := kw? args "gens" | return "bad-op"
